@@ -426,6 +426,19 @@ var Catalogue = []Rule{
 		},
 		EdgeNeed: func(bb *blockBuilder) bool { return bb.hasSpecial("p2wshdrop", 0) },
 		Edge:     func(bb *blockBuilder) { bb.addValid(bb.spendWitnessDrop(1 + bb.b%500)) }},
+	{Name: "taproot-uncommitted-script-path", Stage: "connect", // BIP341: a revealed leaf counts only if the control block commits to the output key
+		Need: func(bb *blockBuilder) bool { return bb.hasSpecial("p2tr", 0) },
+		Apply: func(bb *blockBuilder) {
+			// the leaf is a lone OP_SUCCESS80: it would succeed unconditionally IF it were committed to
+			bb.addValid(bb.spendKind("p2tr", 0, nil, wire.TxWitness{{0x50}, append([]byte{0xc0}, genX...)}))
+		}},
+	{Name: "witness-checksig-undecodable-key", Stage: "connect", // only the valid side exists: an undecodable key is a FAILED check (false), not an error
+		Need:     func(bb *blockBuilder) bool { return false },
+		Apply:    func(bb *blockBuilder) {},
+		EdgeNeed: func(bb *blockBuilder) bool { return bb.hasSpecial("p2wshbadkey", 0) },
+		Edge: func(bb *blockBuilder) {
+			bb.addValid(bb.spendKind("p2wshbadkey", 0, nil, wire.TxWitness{derOneOne, wsBadKey}))
+		}},
 	{Name: "taproot-bad-signature", Stage: "connect",
 		Need: func(bb *blockBuilder) bool { return bb.hasSpecial("p2tr", 0) },
 		Apply: func(bb *blockBuilder) {
